@@ -360,9 +360,17 @@ func ruleX3(c *Ctx) {
 	// mux.Close closes every registered connection and the done channel, and closes the trunk
 	cl := m.method(pkgMux, "mux", "Close")
 	connClose := m.method(pkgMux, "conn", "close")
+	// the body that runs once: the function handed to sync.Once.Do in Close (a closure or a method value)
 	var body *ssa.Function
-	for _, af := range cl.AnonFuncs {
-		body = af
+	for _, ci := range calls(cl) {
+		if g := m.callee(ci.Common()); g != nil && g.String() == "(*sync.Once).Do" && len(ci.Common().Args) == 2 {
+			body = closureFn(ci.Common().Args[1])
+		}
+	}
+	if body == nil {
+		for _, af := range cl.AnonFuncs {
+			body = af
+		}
 	}
 	okAll, okTrunk := false, false
 	if body != nil {
